@@ -186,7 +186,7 @@ def enum_corpus(tier):
             yield {"tx": case, "trailing": t}
 
 
-def targets(tier):
+def _targets(tier):
     prof = "full" if tier == "quick" else "big"
     req = ["nt:n_in>=253", "nt:n_out>=253", "nt:script>=253", "nt:wit-empty-stack", "nt:wit-item>=253", "nt:wit-item-0", "nt:trailing"]
     if tier == "thorough":
@@ -197,3 +197,14 @@ def targets(tier):
         Target("compactsize", check_cs, enumerate_=enum_cs, required=["nt:out-of-range", "nt:width-boundary"], exhaustive=True),
         Target("compactsize-random", check_cs, strategy=lambda tier: cs_random(), budget={"quick": 20000, "thorough": 400000}),
     ]
+
+
+def targets(tier):
+    ts = _targets(tier)
+    if tier == "thorough":
+        # coverage-guided add-on (atheris/libFuzzer through Hypothesis' fuzz_one_input); skipped with a class label if atheris is missing
+        from vf import fuzz
+
+        for name in ['tx-roundtrip']:
+            ts.append(fuzz.campaign_target(PROPERTY, name, campaigns=16, runs=8000))
+    return ts
